@@ -10,7 +10,7 @@ def claim(pid: str, category: str, technique: str, text: str, note: str, ref: st
 
 
 claim(
-    'C19', 'proof', 'ownership / set-reset pairing on all paths / capture dataflow (AST path enumeration + call graph)',
+    'C19', 'proof', 'ownership / set-reset pairing on all paths (direct, or through a generator context manager with the reset in the finally of the yield) / capture dataflow (AST path enumeration + call graph)',
     'Static proof of the clause set K1-K7 (private ContextVar with default; set only in __enter__ with the token on the '
     'instance; exactly one reset with that token on every path of __exit__, unconditional; installed value = '
     'replace(current, **kwargs); frozen state whose mutable member is only read or copied; capture of Config.instance() '
@@ -82,7 +82,7 @@ claim(
 )
 
 claim(
-    'C05', 'other', 'override inventory justified by derived kinds/guards; value-flow dtype rule over abstractly interpreted mv/as_matrix; definite-assignment + escape analysis of constructors',
+    'C05', 'other', 'override inventory justified by derived kinds/guards; value-flow dtype rule over abstractly interpreted mv/as_matrix; definite-assignment + escape analysis of constructors; structure-guard dominance over the arithmetic dunders; strict-variant guard decided by axis-provenance interpretation',
     'out_structure defaults to the abstract evaluation of mv (honest by construction); every class overriding it is justified: the 8 square classes by a '
     'derived structure-preserving mv or constructor guard, the written accessors of composites by agreement with the order in which mv applies the '
     'parts. Every array creation on a result path carries a data-derived dtype (never none, never a Python builtin type), so the result dtype does not '
@@ -94,7 +94,7 @@ claim(
 )
 
 claim(
-    'C06', 'other', 'class-table resolution of `inverse`; closed-form schemas on canonical terms; exact symbolic orthogonality; guard facts',
+    'C06', 'other', 'class-table resolution of `inverse`; closed-form schemas on canonical terms; exact symbolic orthogonality; guard facts; coefficient-cast lint over the mv closure of closed-form-invertible operators; configuration pairing rules of C19',
     'Closed-form inverses are a table with derived reasons: scalar -> reciprocal on the same structure; orthogonal classes resolve `inverse` to the '
     'function their own `transpose` resolves to (decorator order matters) and the rotation satisfies M^T M = I for all angles; move-axis is a Perm whose '
     'transpose swaps source/destination; block-diagonal inverts block-wise under the all-square guard; the diagonal inverse re-uses values, axes and '
@@ -105,7 +105,7 @@ claim(
 )
 
 claim(
-    'C07', 'other', 'pattern x rule-guard acceptance over the class table; symbolic cursor arithmetic over all paths of one scan iteration; may-return-class inference',
+    'C07', 'other', 'pattern x rule-guard acceptance over the class table; symbolic cursor arithmetic over all paths of one scan iteration; may-return-class inference; rule order by abstract interpretation of the registry (register / iteration) over the statically known rule classes',
     'Each of the 23 documented patterns is accepted by the class guards of a registered rule and has a rewriting path (identity guards checked for '
     'type-compatibility); on every path of one scan iteration the cursor becomes <= max(cursor-1, 0) after a rewrite and cursor+1 otherwise, a rewrite '
     'leaves the rule loop, the scan only ends at the end of the chain - exactly the transfer conditions of the invariant "no reducible pair left of '
@@ -117,7 +117,7 @@ claim(
 )
 
 claim(
-    'C08', 'other', 'who-may-tag scan; re-derivation of every true tag from the mv denotation (kinds, exact Mueller matrices, constructor guards); rewiring consistency over the class table',
+    'C08', 'other', 'who-may-tag scan (incl. per-subclass default registration); re-derivation of every true tag from the mv denotation (kinds, exact Mueller matrices, constructor guards); rewiring consistency over the class table',
     'Tags are asserted only inside the decorator functions of core.py with constant answers (plus the documented solver precondition); every '
     '(class, tag) pair that evaluates to True along the MRO is re-derived: diagonal/symmetric from Id/Scale kinds, the strict shape guard, or an '
     'exactly derived diagonal matrix; orthogonal from M^T M = I; square from a structure-preserving mv or a constructor guard; a semidefinite tag on a '
@@ -128,7 +128,7 @@ claim(
 )
 
 claim(
-    'C09', 'other', 'dispatch-table exhaustiveness; guard extraction; abstract interpretation of each kernel (linearity + trace taint); dtype/size-site rules',
+    'C09', 'other', 'dispatch-table exhaustiveness; guard extraction; abstract interpretation of each kernel (linearity + trace taint); symbolic length domain with ceiling-division axioms (slice bounds at the last block, coverage of the returned samples by the block loop); dtype/size-site rules',
     'STRUCTURAL NECESSARY CONDITIONS ONLY: METHODS <-> dispatch branches <-> existing kernels; illegal method / fft_size refused before any store; each '
     'live kernel linear in x with the band values constant and trace-safe; vectorize signature (n),(k)->(n) with (x, band_values); band count from the '
     'last axis of the band values; every buffer with a data-derived dtype; [h:-h] slices guarded against h == 0; irfft given its length; as_matrix and '
@@ -148,7 +148,7 @@ claim(
 )
 
 claim(
-    'C11', 'other', 'guard extraction, definite-assignment/escape analysis, kind inference and read-set analysis of the diagonal operators',
+    'C11', 'other', 'axis-provenance abstract interpretation of constructor + mv + as_matrix over every order type of the requested axes (ranks <= 3, unit-size axes for ranks <= 2); guard extraction, definite-assignment/escape analysis, kind inference and read-set analysis of the diagonal operators',
     'STRUCTURAL NECESSARY CONDITIONS ONLY: pytree / 0-d values refused; the constructor ends with an abstract evaluation of mv once all fields are set '
     '(duplicated or incompatible axes surface at construction); the strict variant raises on any shape change and mv reaches that check; mv is an '
     'element-wise product of reshaped values and reshaped leaf (RScale) reading only the values and axes; inverse re-uses values/axes/structure. The '
@@ -158,7 +158,7 @@ claim(
 )
 
 claim(
-    'C12', 'other', 'kind inference (Select); definite-assignment/escape analysis of the constructor; guard facts for the uniqueness flag; rule soundness reused from C01',
+    'C12', 'other', 'kind inference (Select); abstract interpretation of constructor + index accessor over all index expressions of <= 3 entries; definite-assignment/escape analysis of the constructor; guard facts for the uniqueness flag; rule soundness reused from C01',
     'Both mv are pure selections (each output element is one input element), so the generic transpose is the scatter-add adjoint; the index operator '
     'is constructible with and without output structure, refuses masks without output structure and several ellipses; unique_indices is forced true '
     'only for int/slice/ellipsis/boolean-array indices; P P^T deleted only under identity + uniqueness, pack pack^T under identity, P^T P -> '
@@ -169,7 +169,7 @@ claim(
 )
 
 claim(
-    'C13', 'other', 'kind inference (Perm) plus term derivation of the primitive calls; guard extraction; schemas reused from C03/C06/C01',
+    'C13', 'other', 'kind inference (Perm) plus term derivation of the primitive calls (axis-provenance interpretation over all order types of source/destination when mv is written another way); guard extraction and order-type enumeration of the ravel guards; schemas reused from C03/C06/C01',
     'Each axis mv is built from moveaxis / reshape of the leaf alone (permutation matrix: transpose = inverse), with the stored arguments in the right '
     'order and negative ravel axes normalised per leaf; illegal arguments (first after last - same sign and per leaf for mixed signs; wrong size; '
     'sizes < -1; second -1) are refused before any store; transposes swap source/destination or reshape back to the operand input shapes; a '
@@ -180,7 +180,7 @@ claim(
 )
 
 claim(
-    'C14', 'other', 'role-order term rule over every einsum call; guard extraction over the subscript parser/rewriter',
+    'C14', 'other', 'role-order term rule over every einsum call; bounded exhaustive abstract evaluation of the subscript rewriter over all strings up to renaming of letters, with a contraction-pattern isomorphism oracle for adjointness; guard extraction over the subscript parser',
     'STRUCTURAL NECESSARY CONDITIONS ONLY: the three branches of mv call einsum(subscripts, blocks, leaf) in that role order; transpose keeps the '
     'blocks, uses the output structure and the rewritten subscripts; all six rejections (incl. the ordered layout comparison) dominate the return. '
     'That the letter swap yields the adjoint for every accepted subscript string is a property of a string algorithm over an unbounded input family '
@@ -201,7 +201,7 @@ claim(
 )
 
 claim(
-    'C17', 'other', 'def-use / term derivation over pixel2index, the HEALPix lookup call and the coverage accumulation',
+    'C17', 'other', 'def-use / term derivation over pixel2index, the HEALPix lookup call and (clause by clause) the coverage accumulation',
     'STRUCTURAL NECESSARY CONDITIONS ONLY: result = where(valid, index, -1); valid conjoins 0 <= i and i < dim for the first axis and every further one, '
     'with the dim that scales the stride; index accumulated with the current stride before the stride is multiplied; aligned zip; rounding before '
     'the cast; int32/int64 choice from the map size; ang2pix(nside, theta, phi) in ring ordering; world2index = pixel2index(*world2pixel); coverage = '
@@ -212,7 +212,7 @@ claim(
 )
 
 claim(
-    'C18', 'other', 'writer/reader table agreement for hand-registered pytrees; field discipline; trace-taint abstract interpretation of every mv',
+    'C18', 'other', 'writer/reader table agreement for hand-registered pytrees; field discipline (incl. array-valued scalar factors); trace-taint abstract interpretation of every mv',
     'For each hand-registered landscape the aux_data keys are accepted by and cover the required parameters of that class\'s own constructor, are fed '
     'from the like-named attributes, every landscape subclass is registered and no static aux value is an array (one known finding: '
     'FrequencyLandscape.frequencies); constructors assign only and all declared fields, no array/operator field is static; in every mv, kernel and '
@@ -223,7 +223,7 @@ claim(
 )
 
 claim(
-    'C20', 'other', 'dunder/helper table agreement on canonical terms; kind-table agreement (dict / Literal / ClassVar / fields); argument-selection at factory call sites',
+    'C20', 'other', 'dunder/helper table agreement on canonical terms; kind-table agreement (dict / Literal / ClassVar / fields); partial evaluation of from_iquv per container class with symbolic components; argument-selection at factory call sites',
     'Forward dunders call _operation and reflected ones _roperation with the like-named operator function; the helpers apply (leaf, other) / (other, '
     'leaf) in both branches and return NotImplemented otherwise; unary ops, ravel, reshape map over all components; fields = lower-cased letters of '
     '`stokes`; class_for dict = Literal = subclasses; from_iquv passes exactly its own components in order; every factory passes like-named arguments '
